@@ -104,6 +104,9 @@ var writeCmdPlay = &cobra.Command{
 			return err
 		}
 		outPortName, _ := cmd.Flags().GetString("port")
+		if err := midix.CheckReadableTrackNum(wArgs.trackSet.Set().Len()); err != nil {
+			return err
+		}
 		var buf bytes.Buffer
 		if err := wArgs.writeMIDITo(&buf); err != nil {
 			return err
@@ -119,6 +122,9 @@ var writeCmdEvent = &cobra.Command{
 	RunE: func(cmd *cobra.Command, args []string) error {
 		wArgs, err := newWriteCmdArgs(cmd, args)
 		if err != nil {
+			return err
+		}
+		if err := midix.CheckReadableTrackNum(wArgs.trackSet.Set().Len()); err != nil {
 			return err
 		}
 		out, err := getOutput(cmd)
